@@ -1,0 +1,14 @@
+//go:build verif
+
+package head
+
+import "time"
+
+// Read-only wrappers around unexported functions, used by the verification
+// harness of property C12 (/verif).  Add-only; compiled only with -tags verif.
+
+// VerifC12EncodeTime exposes encodeTime.
+func VerifC12EncodeTime(t time.Time) int64 { return encodeTime(t) }
+
+// VerifC12DecodeTime exposes decodeTime.
+func VerifC12DecodeTime(t int64) time.Time { return decodeTime(t) }
